@@ -1,25 +1,19 @@
 """Regions of the known findings of C04.  classify(name, case, msg) -> finding id | None.
 
-A region is a predicate on the case (operand kinds and shapes, the kernel(s) the implementation was
-observed to call, the 2-d problem `_dot` is handed) and on the observed failure.  It mirrors the
-decidable `Excluded…` predicate / counterexample of lean/SparseV/Props/C04.lean:
+The twelve findings of the first round (hang of `_dot_coo_ndarray*` for 0 columns, ZeroDivisionError and
+unsorted rows of `_dot_csr_csr`, cancellation / unsorted columns / float64 accumulator of
+`_dot_csc_ndarray_sparse`, matmul with a 1-d left operand, matmul with an empty batch axis, tensordot's
+zero-size shortcut ignoring return_type, 1-d dot broadcasting, int32 promotion, complex `equivalent`) are
+repaired in /repo (`fixed:` lines in KNOWN_FINDINGS.txt); they classify nothing any more.  Their witnesses
+stay in the corpus of harness/c04.py and are replayed under the watchdog on every run (`ACTIVE`): the
+kernel models in Lean are faithful to the *unrepaired* kernels, so the replay decides whether leg A
+compares a region with the model or with the specification, and a regression shows up as an ordinary
+VIOLATION.  `route` / `in_hang_region` are kept because a call in the hang region must be scheduled in a
+process of its own whenever the hang witness fails again.
 
-  F-coo-nd-zero-cols-hang   ExcludedCooNdZeroCols: `_dot_coo_ndarray(_sparse)` with 0 output columns and nnz > 0
-  F-csr-csr-zero-cols       csr_csr_no_error_counterexample: `_dot_csr_csr` with kernel n_col == 0
-  F-csc-nd-sparse-cancel    csc_nd_precount_counterexample: `_dot_csc_ndarray_sparse`, a column whose scattered sums cancel
-  F-csr-csr-unsorted        rows_sorted_counterexample: rows of a `_dot_csr_csr` result in reverse first-touch order
-  F-csc-nd-sparse-unsorted  csc_cols_sorted_counterexample: the same emission order in `_dot_csc_ndarray_sparse`
-  F-matmul-1d-left          (wrapper logic, no Lean model) matmul of a 1-d left operand with a right operand of rank >= 3
-  F-matmul-empty-batch      (wrapper logic, no Lean model) matmul batch recursion with a batch axis of extent 0
-  F-tensordot-empty-return-type  (wrapper logic) tensordot's zero-size shortcut ignores return_type
-  F-dot-1d-length-mismatch  (wrapper logic) dot of two 1-d operands of lengths 1 and n != 1 broadcasts instead of raising
-  dtype-only (thorough tier; dtypes are outside the theorems):
-  F-int32-sum-upcast        1-d dot and einsum reduce with ndarray.sum()/COO.sum(), which promote int32 to int64; NumPy keeps int32
-  F-csc-nd-sparse-complex   `_dot_csc_ndarray_sparse` accumulates in a float64 array: numba TypingError for complex operands
-  F-complex-negzero-mixed   `_utils.equivalent(loose=True)` drops `loose` for complex: 0j * negative dense value = -0 is "not the fill value"
-
-`ACTIVE` is filled by harness/c04.py after replaying each finding's witness under the watchdog: a
-finding whose witness no longer fails (the defect was repaired) classifies nothing.
+Open finding:
+  F-einsum-broadcast-one   einsum rejects an extent of 1 meeting a larger extent under the same label / the
+                           same `...` position ("Inconsistent shape for index"), which numpy.einsum broadcasts
 """
 from __future__ import annotations
 
@@ -172,49 +166,30 @@ def tensordot_zero_size_shortcut(case):
         return False
 
 
-def dtypes(case):
-    return case["a"].get("dtype", "int64"), case["b"].get("dtype", "int64")
+def einsum_extents(case):
+    """label (or right-aligned `...` position) -> set of extents over the operands; None if the subscripts do not parse"""
+    sub = case.get("subscripts", "")
+    terms = sub.split("->")[0].split(",")
+    shapes = [case["a"]["shape"]] + ([case["b"]["shape"]] if case.get("op") == "einsum" else [])
+    if len(terms) != len(shapes):
+        return None
+    ext = {}
+    for t, sh in zip(terms, shapes):
+        core = t.replace("...", "")
+        ne = len(sh) - len(core)
+        if ne < 0 or (ne > 0 and "..." not in t):
+            return None
+        pos = t.find("...") if "..." in t else 0
+        labels = list(core[:pos]) + [("...", ne - q) for q in range(ne)] + list(core[pos:])
+        for lab, d in zip(labels, sh):
+            ext.setdefault(lab, set()).add(int(d))
+    return ext
 
 
 def classify(name, case, msg):
-    kernels = set(case.get("_kernels") or [])
-    da, db = dtypes(case)
-    if ACTIVE.get("F-int32-sum-upcast") and msg == "dtype int64, numpy int32" and "int32" in (da, db) and (
-            case.get("op") in ("einsum", "einsum1") or (case.get("op") in ("dot", "matmul", "@", "method_dot")
-                                                        and len(case["a"]["shape"]) == 1 and len(case["b"]["shape"]) == 1)):
-        return "F-int32-sum-upcast"
-    if ACTIVE.get("F-csc-nd-sparse-complex") and kernels == {"csc_nd_sparse"} and "complex128" in (da, db) and msg.startswith("raised TypingError"):
-        return "F-csc-nd-sparse-complex"
-    if ACTIVE.get("F-complex-negzero-mixed") and "complex128" in (da, db) and "nd" in (case["a"]["fmt"], case["b"]["fmt"]) and (
-            case.get("op") in ("outer", "einsum", "einsum1", "vecdot", "kron")
-            and msg.startswith("raised ValueError: Performing a mixed sparse-dense operation")):
-        nd = case["a"] if case["a"]["fmt"] == "nd" else case["b"]
-        if (np.array(nd["dense"], dtype=float) < 0).any():
-            return "F-complex-negzero-mixed"
-    if ACTIVE.get("F-matmul-1d-left") and case.get("op") in ("matmul", "@") and len(case["a"]["shape"]) == 1 and len(case["b"]["shape"]) >= 3 and (
-            msg.startswith("shape ") or msg.startswith("values differ")):
-        return "F-matmul-1d-left"
-    if ACTIVE.get("F-matmul-empty-batch") and matmul_recursion_with_empty_batch(case) and (
-            msg.startswith("raised IndexError: ") or msg.startswith("raised ValueError: At least one array required")):
-        return "F-matmul-empty-batch"
-    if ACTIVE.get("F-dot-1d-length-mismatch") and case.get("op") in ("dot", "matmul", "@", "method_dot") and (
-            len(case["a"]["shape"]) == 1 and len(case["b"]["shape"]) == 1 and case["a"]["shape"] != case["b"]["shape"]
-            and 1 in (case["a"]["shape"][0], case["b"]["shape"][0]) and msg.startswith("numpy raises ValueError but the call returned")):
-        return "F-dot-1d-length-mismatch"
-    if ACTIVE.get("F-tensordot-empty-return-type") and tensordot_zero_size_shortcut(case) and msg.startswith("return_type "):
-        return "F-tensordot-empty-return-type"
-    if msg.startswith("hang") and ACTIVE.get("F-coo-nd-zero-cols-hang") and in_hang_region(case):
-        return "F-coo-nd-zero-cols-hang"
-    if "ZeroDivisionError" in msg and ACTIVE.get("F-csr-csr-zero-cols") and in_zero_cols_region(case) and (
-            not kernels or kernels == {"csr_csr"}):
-        return "F-csr-csr-zero-cols"
-    if ACTIVE.get("F-csc-nd-sparse-cancel") and "csc_nd_sparse" in kernels and case.get("rt") in ("coo", "gcxs") and has_cancellation(case) and (
-            msg.startswith("values differ") or msg.startswith("result not canonical") or msg.startswith("result stores")
-            or msg.startswith("raised") or msg.startswith("crash")):
-        return "F-csc-nd-sparse-cancel"
-    if ACTIVE.get("F-csr-csr-unsorted") and kernels == {"csr_csr"} and msg.startswith("result not canonical: row") and "not strictly increasing" in msg:
-        return "F-csr-csr-unsorted"
-    if ACTIVE.get("F-csc-nd-sparse-unsorted") and kernels == {"csc_nd_sparse"} and case.get("rt") == "gcxs" and (
-            msg.startswith("result not canonical: row") and "not strictly increasing" in msg):
-        return "F-csc-nd-sparse-unsorted"
+    if ACTIVE.get("F-einsum-broadcast-one") and case.get("op") in ("einsum", "einsum1") and msg.startswith(
+            "raised ValueError: Inconsistent shape for index") and "numpy returns" in msg:
+        ext = einsum_extents(case)
+        if ext and any(1 in e and len(e) > 1 for e in ext.values()):
+            return "F-einsum-broadcast-one"
     return None
